@@ -79,6 +79,7 @@ func checkC11(ctx *Ctx, r *Report) {
 	c11FourthRound(ctx, r)
 	c11FifthRound(ctx, r)
 	c11SixthRound(ctx, r)
+	c11SeventhRound(ctx, r, true)
 	c02PythonMethodNamesEscaped(ctx, r)
 	// Python keeps an empty optional collection (`is not None`), Go's bare `omitempty` drops it
 	c01OmitEmptyOnCollections(ctx, r)
@@ -3275,4 +3276,136 @@ func c11SixthRound(ctx *Ctx, r *Report) {
 	}
 	r.Count("hunted clauses of the Python wire format (6th round)", n)
 	r.Floor("hunted clauses of the Python wire format (6th round)", 8)
+}
+
+// c11SeventhRound — sixth hunt of C11:
+//   - (finding) DisjunctionInferMapping takes any constant string field present in every branch for the discriminator,
+//     also one a document can leave out: inferDiscriminatorField has to look at `Required`;
+//   - (finding) the `mapping` of an OpenAPI discriminator supplements the implicit mapping (schema name → schema): the
+//     front-end has to add an entry for the branches the mapping does not name;
+//   - Python: the closure that skips the import of the module being written answers "" only for a relative package — a
+//     schema package called `typing` / `enum` still imports the standard module; a package named after a reserved word is
+//     refused (its module could not be imported).
+func c11SeventhRound(ctx *Ctx, r *Report, roundTrips bool) {
+	n := 0
+	// (a)
+	if !roundTrips {
+		n += 2 // the two clauses about documents lost at run time are not run for C02
+	} else if fn := ctx.LookupMethod("internal/ast/compiler", "DisjunctionInferMapping", "inferDiscriminatorField"); fn == nil {
+		r.Undecided("anchor lost: compiler.DisjunctionInferMapping.inferDiscriminatorField")
+	} else if fd, _ := ctx.DeclOf(fn); fd != nil {
+		reads := false
+		ast.Inspect(fd.Body, func(m ast.Node) bool {
+			if sel, ok := m.(*ast.SelectorExpr); ok && sel.Sel.Name == "Required" {
+				reads = true
+			}
+			return true
+		})
+		n++
+		r.Check(reads, "derive/discriminator-is-required", "compiler.inferDiscriminatorField picks the field that tells the branches apart", fd.Pos(), "among the fields a document has to hold (Required)",
+			"any constant string field present in every branch is taken for the discriminator, also an optional one: `Cat: {type?: \"cat\", lives: int}; Dog: {type?: \"dog\", bark: string}; Root: {pet?: Cat | Dog}` — the accepted document {\"pet\":{\"lives\":1}} raises KeyError: 'type' in Python's from_json and is written back {\"pet\":null} by Go")
+	}
+	// (b)
+	if !roundTrips {
+	} else if p := ctx.Pkg("internal/openapi"); p == nil {
+		r.Undecided("anchor lost: internal/openapi")
+	} else {
+		supplements := false
+		for _, name := range []string{"walkDisjunctions", "getDiscriminator", "walkOneOf", "walkAnyOf"} {
+			fd := c12Method(p, name)
+			if fd == nil {
+				continue
+			}
+			ast.Inspect(fd.Body, func(m ast.Node) bool {
+				if as, ok := m.(*ast.AssignStmt); ok && len(as.Lhs) == 1 {
+					if ix, ok := ast.Unparen(as.Lhs[0]).(*ast.IndexExpr); ok && strings.Contains(exprString(ix.X), "apping") && strings.Contains(exprString(ix.Index), "ReferredType") {
+						supplements = true
+					}
+				}
+				return true
+			})
+		}
+		fd := c12Method(p, "walkDisjunctions")
+		if fd == nil {
+			r.Undecided("anchor lost: openapi.generator.walkDisjunctions")
+		} else {
+			n++
+			r.Check(supplements, "frontier/openapi-mapping-supplements-implicit", "openapi.walkDisjunctions reads the mapping of a discriminator", fd.Pos(), "and adds the implicit entries (schema name → schema) for the branches it does not name",
+				"the explicit entries of `discriminator.mapping` are copied and nothing is added for the other branches: `oneOf: [Cat, Dog], discriminator: {propertyName: petType, mapping: {kitty: Cat}}` — {\"pet\":{\"petType\":\"Dog\",…}} (valid: an unlisted value is a schema name) raises KeyError: 'Dog' in Python and is written back {\"pet\":null} by Go; without any mapping the same document round-trips")
+		}
+	}
+	// (c)
+	if fn := ctx.LookupMethod("internal/jennies/python", "RawTypes", "generateSchema"); fn == nil {
+		r.Undecided("anchor lost: python.RawTypes.generateSchema")
+	} else if fd, _ := ctx.DeclOf(fn); fd != nil {
+		seen, relativeOnly := 0, true
+		ast.Inspect(fd.Body, func(m ast.Node) bool {
+			as, ok := m.(*ast.AssignStmt)
+			if !ok || len(as.Lhs) != 1 || len(as.Rhs) != 1 || !strings.HasSuffix(exprString(as.Lhs[0]), ".importPkg") {
+				return true
+			}
+			fl, ok := ast.Unparen(as.Rhs[0]).(*ast.FuncLit)
+			if !ok {
+				return true
+			}
+			ast.Inspect(fl.Body, func(q ast.Node) bool {
+				is, ok := q.(*ast.IfStmt)
+				if !ok || !strings.Contains(exprString(is.Cond), "schema.Package") {
+					return true
+				}
+				seen++
+				if !strings.Contains(exprString(is.Cond), "strings.HasPrefix(") {
+					relativeOnly = false
+				}
+				return true
+			})
+			return true
+		})
+		n++
+		r.Check(seen > 0 && relativeOnly, "kinds/python-standard-imports-spared", "python.generateSchema skips the import of the module being written", fd.Pos(), "only for a relative package",
+			"the importPkg closure answers \"\" (nothing to import) whenever the bare name of the package is the schema's: in a schema package called typing or enum the standard module is never imported and the annotations come out as `.Any`, `class Mode(.StrEnum)` — SyntaxError on import")
+	}
+	if fn := ctx.LookupMethod("internal/jennies/python", "RawTypes", "Generate"); fn == nil {
+		r.Undecided("anchor lost: python.RawTypes.Generate")
+	} else if fd, p := ctx.DeclOf(fn); fd != nil {
+		info := p.TypesInfo
+		refused := false
+		ast.Inspect(fd.Body, func(m ast.Node) bool {
+			is, ok := m.(*ast.IfStmt)
+			if !ok || !endsInExit(is.Body) {
+				return true
+			}
+			ast.Inspect(is.Cond, func(q ast.Node) bool {
+				c, ok := q.(*ast.CallExpr)
+				if !ok || len(c.Args) != 1 || !strings.HasSuffix(exprString(c.Args[0]), ".Package") {
+					return true
+				}
+				f := callee(info, c)
+				if f == nil {
+					return true
+				}
+				if gd, _ := ctx.DeclOf(f); gd != nil && gd.Body != nil {
+					words := map[string]bool{}
+					ast.Inspect(gd.Body, func(z ast.Node) bool {
+						if e, ok := z.(ast.Expr); ok {
+							if tv, ok := info.Types[e]; ok && tv.Value != nil && tv.Value.Kind() == constant.String {
+								words[constant.StringVal(tv.Value)] = true
+							}
+						}
+						return true
+					})
+					if words["lambda"] && words["global"] && words["import"] {
+						refused = true
+					}
+				}
+				return true
+			})
+			return true
+		})
+		n++
+		r.Check(refused, "skeleton/python-keyword-packages-refused", "python.RawTypes.Generate names a module after its package", fd.Pos(), "a package named after a reserved word is refused",
+			"the module of a schema is named after its package whatever it is: package `global` gives models/global.py and `from ..models import global` in every module that refers to it — SyntaxError, and the run reports success")
+	}
+	r.Count("hunted clauses of the round-trip rules (7th round)", n)
+	r.Floor("hunted clauses of the round-trip rules (7th round)", 4)
 }
